@@ -315,9 +315,23 @@ fn c03(d: &Digest, s: usize, out: &mut Vec<Violation>) {
             );
         }
     }
-    // registration order inside one action
-    for (a, _, ca) in &subs {
-        for (b, _, cb) in &subs {
+    // registration order inside one action: any two direct subscribers (each registered once, at
+    // any time, by anybody) that are told about the same action are called in the order of their
+    // registration, where that order is settled (the first add_subscriber returned before the
+    // second was invoked)
+    let all_direct: Vec<(usize, usize, usize)> = d
+        .regs
+        .iter()
+        .filter(|(_, (sub, st, ci))| {
+            *st == s
+                && *d.sub_kind(*sub) == SubKind::Direct
+                && d.regs.values().filter(|x| x.0 == *sub).count() == 1
+                && d.calls[*ci].ok()
+        })
+        .map(|(reg, (sub, _, ci))| (*sub, *reg, *ci))
+        .collect();
+    for (a, _, ca) in &all_direct {
+        for (b, _, cb) in &all_direct {
             if d.calls[*ca].ret_or_max() < d.calls[*cb].inv {
                 let la = sub_log(d, *a);
                 let lb = sub_log(d, *b);
@@ -445,7 +459,8 @@ fn c07(d: &Digest, s: usize, out: &mut Vec<Violation>) {
         }
     }
     // direct subscribers registered before the dispatch (and not unsubscribed) are told
-    if sd.clean_stop.is_some() && sd.model.policy == Policy::Block {
+    // (every policy: the rule is about the actions that were reduced, not the discarded ones)
+    if sd.clean_stop.is_some() {
         for (reg, (sub, st, ci)) in &d.regs {
             if *st != s || *d.sub_kind(*sub) != SubKind::Direct || d.regs.values().filter(|x| x.0 == *sub).count() != 1 {
                 continue;
